@@ -112,4 +112,62 @@ theorem orientation_preserved {K : Type} [Field K] [LinearOrder K] [IsStrictOrde
     simp only [vol', hn, if_false]
     exact ⟨fun hv => mul_pos h hv, fun hv => mul_neg_of_pos_of_neg h hv⟩
 
+/-! ### the executable model `affineTransform` keeps every triangle's orientation -/
+
+section AffineModel
+variable {K : Type} [CommRing K]
+
+/-- the orientation of a transformed triangle seen from the transformed reference point is
+    `det R` times the original one (translations cancel) -/
+theorem orient_apply (m : M3 K) (t p a b c : V3 K) :
+    orient (m.apply t p) (m.apply t a) (m.apply t b) (m.apply t c) = m.det * orient p a b c := by
+  simp only [orient, M3.det, M3.apply]
+  ring
+
+/-- reversing the winding negates the orientation -/
+theorem orient_flip (p a b c : V3 K) : orient p c b a = - orient p a b c := by
+  simp only [orient, M3.det]
+  ring
+
+variable [LinearOrder K] [IsStrictOrderedRing K]
+
+/-- the triangle list and vertex list computed by the model -/
+theorem affineTransform_eq (m : M3 K) (t : V3 K) (vs : List (V3 K)) (ts : List (Nat × Nat × Nat)) :
+    affineTransform m t vs ts =
+      (vs.map (m.apply t), ts.map fun tr => if m.det < 0 then flipTri tr else tr) := by
+  unfold affineTransform
+  split <;> simp
+
+/-- for a non-singular transform the orientation of every triangle — looked up in the NEW vertex
+    list through the NEW index triple — has the sign of the original one, from every reference point -/
+theorem affine_orientation (m : M3 K) (t p : V3 K) (vs : List (V3 K)) (tr : Nat × Nat × Nat)
+    (hdet : m.det ≠ 0) (d : V3 K) :
+    let v := fun i => vs.getD i d
+    let v' := fun i => (vs.map (m.apply t)).getD i (m.apply t d)
+    let tr' := if m.det < 0 then flipTri tr else tr
+    let o := orient p (v tr.1) (v tr.2.1) (v tr.2.2)
+    let o' := orient (m.apply t p) (v' tr'.1) (v' tr'.2.1) (v' tr'.2.2)
+    (0 < o → 0 < o') ∧ (o < 0 → o' < 0) ∧ (o = 0 → o' = 0) := by
+  intro v v' tr' o o'
+  have hv' : ∀ i, v' i = m.apply t (v i) := by
+    intro i
+    simp only [v', v, List.getD_eq_getElem?_getD, List.getElem?_map]
+    cases vs[i]? <;> rfl
+  rcases lt_or_gt_of_ne hdet with h | h
+  · have ho' : o' = -(m.det * o) := by
+      simp only [o', tr', h, if_true, flipTri, hv']
+      rw [orient_apply, orient_flip]; ring
+    rw [ho']
+    refine ⟨fun ho => ?_, fun ho => ?_, fun ho => by rw [ho]; simp⟩
+    · have := mul_neg_of_neg_of_pos h ho; linarith
+    · have := mul_pos_of_neg_of_neg h ho; linarith
+  · have hn : ¬ m.det < 0 := not_lt.mpr (le_of_lt h)
+    have ho' : o' = m.det * o := by
+      simp only [o', tr', hn, if_false, hv']
+      rw [orient_apply]
+    rw [ho']
+    exact ⟨fun ho => mul_pos h ho, fun ho => mul_neg_of_pos_of_neg h ho, fun ho => by rw [ho]; simp⟩
+
+end AffineModel
+
 end NgVerif.Mesh
